@@ -65,7 +65,9 @@ def build(tier, seed):
     plan.trusted_base = ["vf/symx exact ring + Sym scalar", "lemma: expectation values are bilinear in entries of U and conj(U)"]
     plan.assumptions = ["A-float-as-real", "A-float-constants", "numpy interface, non-batched path"]
     plan.unverified = ["templates and operators without a closed-form matrix kernel", "qp.gradients.parameter_frequencies "
-                       "dispatch for composite operators", "eigvals_to_frequencies (planned E1 contract)"]
+                       "dispatch for composite operators", "eigvals_to_frequencies (planned E1 contract)",
+                       "exactness of the shift rules beyond float tolerance and for spectra no C09 gate declares (bounded stand-in only); "
+                       "param_shift's use of the rule on tapes"]
     plan.size_bounds = ["MultiRZ wires <= 3", "PauliRot word length <= 2 (quick) / 3 (thorough)", "PCPhase wires <= 2"]
     undefined = []
     for name, cls, npar, mk, fixed in instances(tier):
@@ -83,7 +85,100 @@ def build(tier, seed):
                                 replay=lambda w, mk=mk, npar=npar, k=k: _replay(mk, npar, k, w),
                                 sample=f"declared {decl[k]} covers exponent differences of parameter {k}"))
     plan.notes["frequencies_undefined_no_claim"] = undefined
+    add_shift_rule_obligations(plan, tier, seed)
     return plan
+
+
+# ======================================================================================================================================
+# "Consequently, a parameter-shift rule built from those frequencies is exact for that gate": gradients/general_shift_rules.py
+#
+# A rule (c_i, s_i) differentiates every trigonometric polynomial with frequencies in W exactly, at every point, iff
+#       sum_i c_i * exp(i*w*s_i) == (i*w)**order      for every w in W u {0}            (apply the rule to x -> exp(i*w*x))
+# The coefficients come out of float formulas / a float linear solve, so this is a BOUNDED stand-in: the real generate_shift_rule /
+# _get_shift_rule are called natively on every frequency tuple the C09 gate instances declare, with the default shifts and with seeded
+# custom shifts, and the defect of the identity above must be below 1e-8.
+GSR = "pennylane/gradients/general_shift_rules.py"
+SHIFT_TOL = 1e-8
+
+
+def rule_defect(rule, freqs, order=1):
+    rule = np.asarray(rule, dtype=float)
+    c_, s_ = rule[:, 0], rule[:, 1]
+    worst, at = 0.0, None
+    for w in (0.0,) + tuple(float(f) for f in freqs):
+        d = abs(np.sum(c_ * np.exp(1j * w * s_)) - (1j * w) ** order) / max(1.0, abs(w) ** order)
+        if d > worst:
+            worst, at = float(d), w
+    return worst, at
+
+
+def custom_shifts(freqs, j, seed):
+    """seeded, pairwise well separated shifts for which the linear system of the rule is well conditioned (chosen with this file's own
+    sine matrix, not the code's)"""
+    rng = random.Random(1000003 * seed + 7919 * j + int(1000 * sum(freqs)))
+    n = len(freqs)
+    for _ in range(2000):
+        s = sorted(rng.uniform(0.15, 3.0) for _ in range(n))
+        if any(b - a < 0.25 for a, b in zip(s, s[1:])):
+            continue
+        if abs(np.linalg.det(np.sin(np.outer(s, freqs)))) > 0.05:
+            return tuple(round(x, 6) for x in s)
+    raise RuntimeError("no well-conditioned shift set found")
+
+
+def add_shift_rule_obligations(plan, tier, seed):
+    from pennylane.gradients.general_shift_rules import generate_shift_rule, _get_shift_rule
+    tuples = {}
+    for name, cls, npar, mk, fixed in instances(tier):
+        decl = declared(mk([0.3 + 0.1 * i for i in range(npar)]))
+        for k, f in enumerate(decl or []):
+            t = tuple(sorted(float(x) for x in f if x > 0))
+            if t:
+                tuples.setdefault(t, []).append(f"{name}/param{k}")
+    plan.notes["shift_rule_frequency_tuples"] = {str(t): len(v) for t, v in sorted(tuples.items())}
+    plan.fn_under_contract(GSR, "generate_shift_rule")
+    plan.fn_under_contract(GSR, "_get_shift_rule")
+    plan.fn_under_contract(GSR, "process_shifts")
+
+    def make(fname, call, freqs, shifts, order, label):
+        def run(w=None):
+            try:
+                rule = call(freqs, shifts, order)
+            except Exception as ex:  # pylint: disable=broad-except
+                return None, f"raised {type(ex).__name__}: {ex}"
+            return rule, None
+
+        def replay(w=None):
+            rule, err = run()
+            if err:
+                return dict(confirmed=True, observed=err, frequencies=list(freqs), shifts=None if shifts is None else list(shifts), order=order)
+            d, at = rule_defect(rule, freqs, order)
+            return dict(confirmed=bool(d > SHIFT_TOL), relative_defect=d, at_frequency=at, frequencies=list(freqs),
+                        shifts=None if shifts is None else list(shifts), order=order, rule=np.asarray(rule, dtype=float).tolist())
+
+        def fn():
+            rp = replay()
+            if rp["confirmed"]:
+                return Outcome(REFUTED, "float-standin", f"sum_i c_i exp(i w s_i) != (i w)^{order} at w = {rp.get('at_frequency')}: "
+                               f"relative defect {rp.get('relative_defect')}", witness=dict(frequencies=list(freqs), shifts=rp["shifts"], order=order),
+                               replay=rp)
+            return Outcome(DISCHARGED, f"float-standin(bounded: tol {SHIFT_TOL})", f"relative defect {rp['relative_defect']:.2e} over w in {{0}} u {list(freqs)}")
+        return Obligation(f"C09/shift-rule:{fname}/freqs{list(freqs)}/{label}".replace(" ", ""), "post", fn, func=(GSR, fname), bounded=True,
+                          replay=replay, timeout=120,
+                          sample="the returned rule differentiates exp(i*w*x) exactly (tolerance 1e-8) for every declared frequency w and w = 0")
+
+    for freqs in sorted(tuples):
+        gen = lambda f, s, o: generate_shift_rule(f, shifts=s, order=o)
+        raw = lambda f, s, o: _get_shift_rule(f, shifts=s)
+        plan.add(make("generate_shift_rule", gen, freqs, None, 1, "default-shifts"))
+        plan.add(make("generate_shift_rule", gen, freqs, None, 2, "default-shifts-second-order"))
+        plan.add(make("_get_shift_rule", raw, freqs, None, 1, "default-shifts"))
+        for j in range(3):
+            sh = custom_shifts(freqs, j, seed)
+            plan.add(make("generate_shift_rule", gen, freqs, sh, 1, f"custom-shifts-{j}"))
+            plan.add(make("_get_shift_rule", raw, freqs, sh, 1, f"custom-shifts-{j}"))
+    plan.size_bounds.append("shift rules: the frequency tuples declared by the C09 gate instances " + str(sorted(tuples)) +
+                            "; default shifts, second order with default shifts, three seeded custom shift sets each (bounded stand-in, tol 1e-8)")
 
 
 def _check(mk, npar, k, decl, name, seed):
